@@ -60,10 +60,13 @@ pub fn make_flat<F: Flt>(lay: &Layout, re: f64, pool: &[f64], pres: &[bool], zer
             continue;
         }
         let mut v = round_to::<F>(pool[(i - 1) % pool.len()]);
-        if let Some(b) = s.block {
+        // a zero flag on a block zeroes everything nested inside it as well
+        let mut blk = s.block;
+        while let Some(b) = blk {
             if zero[b % zero.len()] {
                 v = 0.0;
             }
+            blk = lay.blocks[b].parent;
         }
         vals.push(v);
     }
